@@ -714,9 +714,14 @@ def gen_concat(rng):
     return Case(f"ConcatSignal.{[np.size(x) for x in xs]}", make, affine=True)
 
 
-def gen_complex(rng):
+def gen_complex(rng, k=None):
     kind = rng.choice(["make", "real", "imag", "norm"])
     shp = [(), (4,), (2, 3)][_ri(rng, 0, 2)]
+    force_real = None
+    if k is not None:    # stratified: every (module, input dtype) combination comes round
+        kind, force_real = [("make", None), ("real", False), ("real", True), ("imag", False), ("imag", True), ("norm", False),
+                            ("norm", True)][k % 7]
+        shp = [(4,), (2, 3), ()][(k + k // 7) % 3]
 
     def r(c=False):
         v = rng.standard_normal(shp) + (1j * rng.standard_normal(shp) if c else 0)
@@ -726,6 +731,8 @@ def gen_complex(rng):
         cls = pym.MakeComplex
     else:
         realin = rng.random() < 0.35        # a REAL-typed input is admissible too (the real axis of the complex plane)
+        if force_real is not None:
+            realin = force_real
         xs = [r(not realin)]
         if realin and kind == "norm":       # |x| is not differentiable at 0: stay away from it
             v = rng.uniform(0.3, 2.0, shp) * rng.choice([-1.0, 1.0], shp)
@@ -744,14 +751,18 @@ def gen_complex(rng):
     return c
 
 
-def gen_aggregation(rng):
+def gen_aggregation(rng, k=None):
     kind = rng.choice(["pnorm", "soft", "ks"])
     n = _ri(rng, 1, 12)
     x = rng.uniform(0.2, 2.0, n)
     kw = {}
-    if rng.random() < 0.4:
+    want_sc = (rng.random() < 0.4) if k is None else bool(k % 2)             # stratified: scaling x active set x kind
+    want_as = (rng.random() < 0.4) if k is None else bool((k // 2) % 2)
+    if k is not None:
+        kind = ["pnorm", "soft", "ks"][(k // 4) % 3]
+    if want_sc:
         kw["scaling"] = ("max" if rng.random() < 0.5 else "min", float(rng.choice([0.0, 0.5, 0.9])))
-    if rng.random() < 0.4:
+    if want_as:
         kw["active_set"] = dict(lower_rel=float(rng.choice([0.0, 0.1])), upper_rel=float(rng.choice([1.0, 0.9])),
                                 lower_amt=float(rng.choice([0.0, 0.2])), upper_amt=float(rng.choice([1.0, 0.85])))
     par = float(rng.choice([-8, -3, -1, 2, 4, 10]))
@@ -1046,3 +1057,12 @@ def numerical_limit(fam, msg):
     the sparse eigenvector sensitivity solves the (by construction singular) system (A - lambda B) v = r with an LU
     factorisation; SuperLU occasionally finds the factor EXACTLY singular and raises. Counted as boundary skip."""
     return fam == "eigensolve_sparse" and ("exactly singular" in (msg or "") or "Singular matrix" in (msg or ""))   # (dense LDL without B)
+
+
+def generate(fam, rng, k=None):
+    """a case of the family; families with option combinations are stratified by the running index k"""
+    import inspect
+    g = GENERATORS[fam]
+    if k is not None and "k" in inspect.signature(g).parameters:
+        return g(rng, k=k)
+    return g(rng)
